@@ -3,7 +3,7 @@ import os
 import random
 
 from . import bf, pool, tlc
-from .common import NCPU, Report, ToolError, build_harness, log, seed, workdir
+from .common import NCPU, Report, ToolError, build_harness, log, seed, workdir, replay_witness
 from .props_bf import population, adjudicate, settle, SCREEN, ALL_CONFIGS, config_runs
 
 CONCRETE = {
@@ -21,6 +21,9 @@ def c12(tier):
     rng = random.Random(sd)
     bins = build_harness(("release",))
     hv = bins["release"]
+    rw = replay_witness()
+    if rw and "src" in rw:
+        return replay_c12(rep, hv, rw)
     # 1. the specification enumerates every abstract string up to MAXLEN
     maxlen = 5 if tier == "quick" else 7
     res = tlc.run_tlc("Parser", env={"GEN": 1, "MAXLEN": maxlen, "CASES": "/dev/null"}, workers=8, timeout=1200)
@@ -100,6 +103,18 @@ def c12(tier):
                             "inserted at random positions, run on all backends and validated against BF.tla, which "
                             "treats them as no-ops; non-trivial = the string contains a bracket" % maxlen)
     settle(rep, "C12", bins, judged, shrink=False)
+    return rep.finish()
+
+
+def replay_c12(rep, hv, rw):
+    a = pool.simple_requests(hv, [{"op": "parse", "id": "r", "src": rw["src"]}], timeout=60.0)[0]
+    ans = a["answers"] if a and "answers" in a else [["worker", (a or {}).get("died", "hung"), 0]]
+    tr = [{"id": "r", "s": rw["abstract"], "answers": ans}]
+    v = tlc.validate_in_chunks("Parser", tr, rep, "C12", env={"GEN": 0, "MAXLEN": 0})["r"]
+    rep.count("traces_validated_against_impl", 1)
+    if v["verdict"] != "accepted":
+        rep.violation({"src": rw["src"], "abstract": rw["abstract"], "answers": ans, "tlc": v},
+                      "source %r: front ends answered %s, specification says %s" % (rw["src"][:80], ans[:3], v["expected"]))
     return rep.finish()
 
 
